@@ -27,6 +27,85 @@ fn fresh_deterministic(files: &[(String, String)], qs: &[String], strict: bool) 
     d1 == d2
 }
 
+#[derive(Clone)]
+struct Fail {
+    what: String,
+    /// which observables differ (symptom kinds); `trace` for direct no-trace checks
+    symptoms: Vec<String>,
+}
+
+#[derive(Default)]
+struct Fails(Vec<Fail>);
+
+impl Fails {
+    fn push(&mut self, what: String) {
+        self.0.push(Fail { what, symptoms: vec!["trace".into()] });
+    }
+    fn push_s(&mut self, what: String, mut symptoms: Vec<String>) {
+        symptoms.sort();
+        symptoms.dedup();
+        self.0.push(Fail { what, symptoms });
+    }
+    fn is_empty(&self) -> bool {
+        self.0.is_empty()
+    }
+}
+
+/// all differences of two dumps as one failure with its symptom kinds
+fn dump_failure(prefix: &str, before: &BTreeMap<String, Vec<String>>, after: &BTreeMap<String, Vec<String>>, fails: &mut Fails) {
+    let diffs = diff_dump_all(before, after);
+    if let Some((sec, a, b)) = diffs.first() {
+        let symptoms: Vec<String> = diffs.iter().map(|(s, a, b)| symptom_of(s, a, b)).collect();
+        let mut kinds = symptoms.clone();
+        kinds.sort();
+        kinds.dedup();
+        fails.push_s(format!("{prefix}: {} differing lines, kinds {kinds:?}; first: section {sec}: {a:?} vs {b:?}", diffs.len()), symptoms);
+    }
+}
+
+/// the open findings, each keyed by an input predicate AND the symptom kinds its root cause explains
+fn finding_for(c: &WsCase, symptom: &str) -> Option<&'static str> {
+    // LuaPropertyIndex: whole property of a shared TypeDecl owner dropped / last writer wins
+    const PROPERTY: &[&str] = &["hover-doc", "deprecated-diag", "count:property"];
+    // globals declared in several files: declaration / overload order and table-vs-member typing follow analysis order
+    const GLOBAL: &[&str] = &["global-type", "global-decl", "globals"];
+    // merge_def_type_with_table re-owns another file's members to the class; never undone
+    const BOUND: &[&str] = &["undefined-field-diag", "count:member"];
+    if class_bound_to_required_table(c) && BOUND.contains(&symptom) {
+        return Some("class-bound-to-required-table/member-reowning");
+    }
+    if type_shared_across_files(c) && PROPERTY.contains(&symptom) {
+        return Some("type-in-several-files/doc-property");
+    }
+    if global_shared_across_files(c) && GLOBAL.contains(&symptom) {
+        return Some("global-in-several-files/analysis-order");
+    }
+    None
+}
+
+/// (class, the failure to report): class null as soon as one symptom of one failure is not explained
+fn classify(c: &WsCase, fails: &Fails) -> (Value, Fail) {
+    for f in &fails.0 {
+        for sy in &f.symptoms {
+            if finding_for(c, sy).is_none() {
+                let mut f2 = f.clone();
+                f2.what = format!("{} [unexplained symptom: {sy}]", f.what);
+                return (Value::Null, f2);
+            }
+        }
+    }
+    let f = fails.0[0].clone();
+    let cl = finding_for(c, &f.symptoms[0]).unwrap_or("?");
+    (json!(cl), f)
+}
+
+fn with_probe(c: &WsCase) -> WsCase {
+    let mut c2 = c.clone();
+    c2.files.push(("probe.lua".into(), vec![c.probe_text()]));
+    c2
+}
+
+#[allow(dead_code)]
 fn class_of_c10(c: &WsCase) -> Value {
     // the probe (a copy of the last variant of file 0) is one more file of the history
     let mut c2 = c.clone();
@@ -35,6 +114,7 @@ fn class_of_c10(c: &WsCase) -> Value {
     class_of(&c2)
 }
 
+#[allow(dead_code)]
 fn class_of(c: &WsCase) -> Value {
     if class_bound_to_required_table(c) {
         json!("class-bound-to-required-table")
@@ -67,8 +147,8 @@ fn gen_c10(rng: &mut Rng) -> WsCase {
 }
 
 /// returns the failures of one C10 case
-fn oracle_c10(c: &WsCase, report: &mut Report) -> Vec<String> {
-    let mut fails = Vec::new();
+fn oracle_c10(c: &WsCase, report: &mut Report) -> Fails {
+    let mut fails = Fails::default();
     let qs = queries(&c.files);
     let mut sim = Sim::new(c.files.len(), c.strict);
     sim.initial(c);
@@ -96,14 +176,12 @@ fn oracle_c10(c: &WsCase, report: &mut Report) -> Vec<String> {
         let s = sizes(&sim.a);
         report.count("c10_probe_add_remove");
         if let Some(x) = grown_sizes(&base_sizes, &s) {
-            fails.push(format!("after adding and removing probe.lua the index holds more state than before: {x}"));
+            fails.push_s(format!("after adding and removing probe.lua the index holds more state than before: {x}"), count_symptoms(&x));
         }
         if diff_sizes(&base_sizes, &s, &[]).is_some() {
             report.count("c10_probe_sizes_differ");
         }
-        if let Some(x) = diff_dump(&base_dump, &d) {
-            fails.push(format!("after adding and removing probe.lua the results of the other files changed: {x}"));
-        }
+        dump_failure("after adding and removing probe.lua the results of the other files changed", &base_dump, &d, &mut fails);
     }
     let mut removed: Vec<String> = Vec::new();
     for op in &c.ops {
@@ -199,8 +277,8 @@ fn gen_c08(rng: &mut Rng) -> WsCase {
     WsCase { files, initial, ops, probe: None, strict: rng.chance(1, 3) }
 }
 
-fn oracle_c08(c: &WsCase, report: &mut Report) -> Vec<String> {
-    let mut fails = Vec::new();
+fn oracle_c08(c: &WsCase, report: &mut Report) -> Fails {
+    let mut fails = Fails::default();
     let qs = queries(&c.files);
     let mut sim = Sim::new(c.files.len(), c.strict);
     sim.initial(c);
@@ -237,14 +315,12 @@ fn oracle_c08(c: &WsCase, report: &mut Report) -> Vec<String> {
         };
         let now = sizes(&sim.a);
         if let Some(x) = grown_sizes(&base_sizes, &now) {
-            fails.push(format!("step {j}: after {what} the amount of indexed state grew: {x}"));
+            fails.push_s(format!("step {j}: after {what} the amount of indexed state grew: {x}"), count_symptoms(&x));
         }
         if diff_sizes(&base_sizes, &now, &[]).is_some() {
             report.count("c08_sizes_differ");
         }
-        if let Some(x) = diff_dump(&base_dump, &dump(&sim.a, &qs)) {
-            fails.push(format!("step {j}: after {what} an observable result changed: {x}"));
-        }
+        dump_failure(&format!("step {j}: after {what} an observable result changed"), &base_dump, &dump(&sim.a, &qs), &mut fails);
         if !fails.is_empty() {
             break;
         }
@@ -273,8 +349,8 @@ fn gen_c09(rng: &mut Rng) -> WsCase {
     WsCase { files, initial, ops, probe: None, strict: rng.chance(1, 3) }
 }
 
-fn oracle_c09(c: &WsCase, report: &mut Report) -> Vec<String> {
-    let mut fails = Vec::new();
+fn oracle_c09(c: &WsCase, report: &mut Report) -> Fails {
+    let mut fails = Fails::default();
     let qs = queries(&c.files);
     let mut sim = Sim::new(c.files.len(), c.strict);
     sim.initial(c);
@@ -293,11 +369,9 @@ fn oracle_c09(c: &WsCase, report: &mut Report) -> Vec<String> {
     // the path <-> id maps of the Vfs keep closed files (ids are never reused); not indexed state
     let ignore = ["vfs.file_id_map", "vfs.file_path_map"];
     if let Some(x) = diff_sizes(&sizes(&f), &sizes(&sim.a), &ignore) {
-        fails.push(format!("after reindex the index holds different amounts of state than a fresh analysis of the same files: {x} (fresh vs reindexed)"));
+        fails.push_s(format!("after reindex the index holds different amounts of state than a fresh analysis of the same files: {x} (fresh vs reindexed)"), vec!["count:reindex".into()]);
     }
-    if let Some(x) = diff_dump(&dump(&f, &qs), &dump(&sim.a, &qs)) {
-        fails.push(format!("after reindex an observable result differs from a fresh analysis of the same files: {x} (fresh vs reindexed)"));
-    }
+    dump_failure("after reindex an observable result differs from a fresh analysis of the same files (fresh vs reindexed)", &dump(&f, &qs), &dump(&sim.a, &qs), &mut fails);
     fails
 }
 
@@ -495,7 +569,11 @@ pub fn run(args: &Args, report: &mut Report) {
         }
         let fails = match r {
             Ok(f) => f,
-            Err(_) => vec!["panic in the analysis".to_string()],
+            Err(_) => {
+                let mut f = Fails::default();
+                f.push_s("panic in the analysis".to_string(), vec!["panic".into()]);
+                f
+            }
         };
         let shared = symbol_shared_across_files(c);
         if shared {
@@ -505,9 +583,16 @@ pub fn run(args: &Args, report: &mut Report) {
         if (shared || has_require) && seen.insert(format!("{:?}", c.to_json())) {
             report.distinct_nontrivial += 1;
         }
-        if let Some(first) = fails.first() {
-            let class = if prop == "C10" { class_of_c10(c) } else { class_of(c) };
-            let v = json!({"input": c.to_json(), "what": first, "all": fails.len(), "more": fails.iter().skip(1).take(4).collect::<Vec<_>>(), "class": class});
+        if !fails.is_empty() {
+            let cc = if prop == "C10" { with_probe(c) } else { c.clone() };
+            let (class, f) = classify(&cc, &fails);
+            for fl in &fails.0 {
+                for sy in &fl.symptoms {
+                    report.count(&format!("symptom_{sy}"));
+                }
+            }
+            let v = json!({"input": c.to_json(), "what": f.what, "symptoms": f.symptoms, "all": fails.0.len(),
+                "more": fails.0.iter().skip(1).take(3).map(|x| x.what.chars().take(300).collect::<String>()).collect::<Vec<_>>(), "class": class});
             if class.is_null() {
                 report.oracle_failure(v);
             } else {
